@@ -74,6 +74,8 @@ type Ctx struct {
 	mustMemo   map[*ssa.Function]map[string]bool
 	lenPres    map[[2]any]bool
 	lenRes     map[*ssa.Function]int
+	drainOK    *bool
+	drainWhy   string
 	nnMemo     map[ssa.Value]bool
 	aliases    map[*types.Var]string
 	role       *roleInfo
